@@ -113,6 +113,32 @@ pub struct TypedExpr {
     pub span: Span,
 }
 
+impl TypedExpr {
+    /// The value of an integer literal, looking through redundant parentheses.
+    pub fn int_literal_value(&self) -> Option<i64> {
+        let mut e = self;
+        while let TypedExprKind::Grouping(inner) = &e.kind {
+            e = inner;
+        }
+        match &e.kind {
+            TypedExprKind::Int(value) => Some(*value),
+            _ => None,
+        }
+    }
+
+    /// Give an integer literal, and every pair of redundant parentheses around it, the type `ty`.
+    pub fn retype_int_literal(&mut self, ty: &InferType) {
+        let mut layer = self;
+        loop {
+            layer.ty = ty.clone();
+            match &mut layer.kind {
+                TypedExprKind::Grouping(inner) => layer = inner,
+                _ => break,
+            }
+        }
+    }
+}
+
 /// Part of a typed format string
 #[derive(Debug, Clone)]
 pub enum TypedFmtStringPart {
